@@ -269,6 +269,11 @@ def _callback(self, t, tn, cb, ctl, kw=None):
                 self.solve_t(tn, min_iter=3, max_iter=2)
             elif cb.get('how') == 'offset':
                 self.solve_t(tn, offset=n + 1)
+            elif cb.get('how') == 'margin' and (getattr(self, 'lags', 0) or getattr(self, 'leads', 0)):
+                # a period inside the lag / lead margin (by position, or spelt from the end): refused like any other
+                # period the model cannot be solved for, whatever call is under way
+                lg_, ld_ = getattr(self, 'lags', 0), getattr(self, 'leads', 0)
+                self.solve_t((lg_ - 1) if (lg_ and (not ld_ or cb.get('side') == 'lag')) else (-1 if cb.get('spelt') == 'negative' else n - ld_))
             else:
                 self.solve_t(n + 3)
         elif what == 'nested_solve':
